@@ -2,7 +2,7 @@
   Props.C41 — Flux window-aggregate tables have the right windows and values.
 
   Subject: `Influx.Model.FluxTable` (written from storage/flux as repaired by
-  fixes/C41-window-tables.patch, compared with the real reader on every run) on top of the
+  fixes/C41-a-selector-as-aggregate-window.patch + fixes/C41-b-empty-windows-after-last-point.patch, compared with the real reader on every run) on top of the
   C20 cursor model.
 -/
 import Influx.Lemmas.FluxTableCompose
